@@ -25,6 +25,7 @@ func init() {
 			"R7 in smparser.CEA.Parse every return that can carry a nil error is preceded on all paths by each error-returning validation step (unmarshal, mandatory AVPs, applications), is unreachable from their error edges, and is guarded by Result-Code == 2001; and (contradiction rule) in smparser.CEA.Parse and what it calls, no rejection (return of an Err* cause) is guarded by a nil test on the result of a module function that can never produce the tested outcome; " +
 			"R6 no handler closure of package sm (they run on the connection's only reader goroutine for every matching message) performs a blocking channel operation, and every close() of a captured channel is protected by a once-mechanism (the handshake-complete test that the same path then sets). " +
 			"R7 the client's CEA handler reports success only on the path that passed CEA.Parse with a nil error, whose own accepting return is dominated by the nil-error edges of Unmarshal and the sanity check and by the Result-Code == 2001 edge, each rejection test being live; R8 every transport deadline the handshake arms is armed per operation or disarmed again, for each direction it covers, before the connection is handed to the application. " +
+			"R3 also: between transmissions nothing is stored into the CER's identifiers and no AVP is added to it (every transmission is the same request, so an answer to any of them matches). " +
 			"Not decided: real timing, the CEA acceptance predicate (value-level parser logic).",
 		Rules: map[string]string{
 			"R1": "at most MaxRetransmits+1 transmissions",
